@@ -31,31 +31,31 @@ var SliceOf = map[string]string{"str": "strs", "stringer": "stringers", "bool": 
 // its type. Keys name the entry point.
 func AllEntryPoints(set Settings, v Val) *Program {
 	var ops []Op
-	ops = append(ops, KV("event", v))
-	ops = append(ops, KV("dict", Val{T: "dict", Ops: []Op{KV("x", v)}}))
-	ops = append(ops, KV("obj", Val{T: "obj", Ops: []Op{KV("x", v)}}))
-	ops = append(ops, Op{V: Val{T: "embed", Ops: []Op{KV("embed", v)}}})
-	ops = append(ops, Op{V: Val{T: "func", Ops: []Op{KV("func", v)}}})
+	ops = append(ops, KV("ep:event", v))
+	ops = append(ops, KV("ep:dict", Val{T: "dict", Ops: []Op{KV("x", v)}}))
+	ops = append(ops, KV("ep:obj", Val{T: "obj", Ops: []Op{KV("x", v)}}))
+	ops = append(ops, Op{V: Val{T: "embed", Ops: []Op{KV("ep:embed", v)}}})
+	ops = append(ops, Op{V: Val{T: "func", Ops: []Op{KV("ep:func", v)}}})
 	if ArrayTypes[v.T] {
-		ops = append(ops, KV("arr", Val{T: "arr", L: []Val{v}}))
-		ops = append(ops, KV("arrm", Val{T: "arrm", L: []Val{v}}))
+		ops = append(ops, KV("ep:arr", Val{T: "arr", L: []Val{v}}))
+		ops = append(ops, KV("ep:arrm", Val{T: "arrm", L: []Val{v}}))
 	}
 	if FieldsTypes[v.T] && v.T != "uints8" {
-		ops = append(ops, Op{V: Val{T: "fieldsmap", Ops: []Op{KV("fmap", v)}}})
-		ops = append(ops, Op{V: Val{T: "fieldsslice", Ops: []Op{KV("fslice", v)}}})
+		ops = append(ops, Op{V: Val{T: "fieldsmap", Ops: []Op{KV("ep:fmap", v)}}})
+		ops = append(ops, Op{V: Val{T: "fieldsslice", Ops: []Op{KV("ep:fslice", v)}}})
 	}
 	if PtrTypes[v.T] && !v.Zero {
 		pv := v
 		pv.Ptr = true
-		ops = append(ops, Op{V: Val{T: "fieldsslice", Ops: []Op{KV("fptr", pv)}}})
+		ops = append(ops, Op{V: Val{T: "fieldsslice", Ops: []Op{KV("ep:fptr", pv)}}})
 	}
 	if st, ok := SliceOf[v.T]; ok && !(v.T == "anerr" && v.EK == "objerr") {
-		ops = append(ops, KV("slice", Val{T: st, L: []Val{v, v}}))
+		ops = append(ops, KV("ep:slice", Val{T: st, L: []Val{v, v}}))
 		if st != "uints8" && st != "stringers" {
-			ops = append(ops, Op{V: Val{T: "fieldsslice", Ops: []Op{KV("fsl", Val{T: st, L: []Val{v}})}}})
+			ops = append(ops, Op{V: Val{T: "fieldsslice", Ops: []Op{KV("ep:fsl", Val{T: st, L: []Val{v}})}}})
 		}
 	}
-	cops := []Op{KV("ctx", v)}
+	cops := []Op{KV("ep:ctx", v)}
 	if v.T != "rawcbor" && v.T != "timediff" {
 		return P(set, []Step{With(cops...)}, Ev(ops...))
 	}
